@@ -177,10 +177,32 @@ def discovery_variants(level, acc):
             acc.violation(v)
 
 
+STEADY = {"quick": [(0.5, 400), (0.9, 200), (1.75, 230), (149.5, 12)], "thorough": [(0.25, 800), (0.5, 500), (0.9, 400), (1.75, 400), (59.9, 60), (149.5, 40), (149.99, 40)]}
+
+
+def steady_runs(level, tier, acc):
+    """long-lived client with a steady request rhythm: n requests, each
+    *spacing* seconds after the previous one (non-integral spacings: a client
+    that rounds its clock per request must not drift out of the window)"""
+    for spacing, n in STEADY[tier]:
+        hist = tuple(x for _ in range(n) for x in (("op", "get"), ("advance", spacing)))[:-1]
+        violations, nreq, outcomes = run_history(level, hist)
+        acc.count(evaluations=1, nontrivial=1, states=len(hist), transitions=nreq, traces=1)
+        acc.outcome("steady/%s" % ("ok" if not violations else violations[0]["kind"]))
+        acc.sample({"level": level, "family": "steady", "spacing_s": spacing, "requests": n, "failed": sum(1 for o in outcomes if o[1])})
+        for v in violations[:1]:
+            v["detail"]["history"] = "get every %s s, %d times" % (spacing, n)
+            v["facts"]["history"] = v["detail"]["history"]
+            v["case"] = {"level": level, "steady": [spacing, n]}
+            acc.violation(v)
+
+
 def shards(tier):
     b = bounds(tier)
     out = []
     for level in b["levels"]:
+        if level != "noAuthNoPriv:md5":
+            out.append({"tier": tier, "level": level, "steady": True})
         for first in alphabet(tier):
             out.append({"tier": tier, "level": level, "first": list(first)})
         out.append({"tier": tier, "level": level, "discovery": True})
@@ -192,6 +214,9 @@ def run_shard(params, acc):
     level = params["level"]
     if params.get("discovery"):
         discovery_variants(level, acc)
+        return
+    if params.get("steady"):
+        steady_runs(level, tier, acc)
         return
     b = bounds(tier)
     A = alphabet(tier)
@@ -243,6 +268,10 @@ def replay(case):
         a = A()
         discovery_variants(case["level"], a)
         return [v for v in a.v if v["case"]["discovery_variant"] == case["discovery_variant"]]
+    if "steady" in case:
+        spacing, n = case["steady"]
+        hist = tuple(x for _ in range(n) for x in (("op", "get"), ("advance", spacing)))[:-1]
+        return run_history(case["level"], hist)[0]
     hist = tuple(tuple(e) for e in case["history"])
     return run_history(case["level"], hist)[0]
 
@@ -251,7 +280,7 @@ def meta(tier):
     b = bounds(tier)
     return {
         "level": "model_checking",
-        "rule": "explicit-state search over histories (length <= %d) of %r on one client per security level %r; histories are merged on their normal form (adjacent clock advances add up); states = distinct normal forms, a transition = one request/response exchange; every history ending in an operation is replayed on a fresh real client against the reference agent on the shared virtual clock and all of its operations are judged; plus discovery-reply variants (matching / foreign message id, no bindings, empty engine id); non-trivial = history with at least two events"
+        "rule": "explicit-state search over histories (length <= %d) of %r on one client per security level %r; histories are merged on their normal form (adjacent clock advances add up); states = distinct normal forms, a transition = one request/response exchange; every history ending in an operation is replayed on a fresh real client against the reference agent on the shared virtual clock and all of its operations are judged; plus long steady runs (a get every s seconds, n times, for (s, n) in 'STEADY') and discovery-reply variants (matching / foreign message id, no bindings, empty engine id); non-trivial = history with at least two events"
         % (b["depth"], alphabet(tier), b["levels"]),
         "exhaustive": True,
         "bounds": b,
